@@ -135,6 +135,30 @@ def chain_of(ctx, local, depth=0):
                 continue
             confined = False
             for (sbb, discr, vals, neg) in fn.conditions_at(d[0]):
+                # `if x != Equal { return x }` / `if x == Equal { y } else { x }`: the edge on which a bool test of x against Equal
+                # says "equal"
+                dl0 = mir.op_local(discr) if isinstance(discr, dict) and 'k' in discr else None
+                dd0 = fn.single_def(dl0) if dl0 is not None else None
+                if dd0 and dd0[2] == 'call':
+                    tc = fn.call_at[dd0[0]]
+                    isne, iseq = tc.decl.endswith('PartialEq::ne'), tc.decl.endswith('PartialEq::eq')
+                    if (isne or iseq) and len(tc.args) == 2 and 'cmp::Ordering' in (fn.ty.get(tc.arg_local(0), '') or ''):
+                        truth = (vals != [0]) if vals is not None else (0 in (neg or []))
+                        says_equal = (iseq and truth) or (isne and not truth)
+                        other = mir.provenance(fn, tc.args[1])
+                        def const_is_equal(v):
+                            if 'Ordering::Equal' in str(v) or str(v).strip() in ('Equal', 'const Equal'):
+                                return True
+                            pf = ctx.prog.fns.get(str(v))        # a promoted constant: its body builds the value
+                            return pf is not None and any(st['r']['rv'] == 'agg' and st['r']['kind'].endswith('cmp::Ordering::Equal')
+                                                          for b in pf.blocks.values() for st in b['stmts'])
+                        is_equal_const = any(const_is_equal(v) or const_is_equal(r[0] if r else '') for (_t, v, *r) in other.consts) or \
+                            (tc.args[1].get('k') == 'const' and const_is_equal(tc.args[1].get('v', '')))
+                        if says_equal and is_equal_const:
+                            src = mir.provenance(fn, tc.args[0], pass_through={'deref', 'borrow'})
+                            if any(chain_of(ctx, l, depth + 1) == x for l in src.locals if l != dl0):
+                                confined = True
+                    continue
                 if neg or vals != [ORDERING_EQUAL]:
                     continue
                 dl = mir.op_local(discr) if isinstance(discr, dict) and 'k' in discr else None
